@@ -1009,7 +1009,8 @@ def kh_lines_wellformed(lines, n):
 
 def kh_load_inv(c):
     it, i = c.extra['iter'].z, c.extra['i']
-    return z3.And(c.new('ghost_added') == z3.Concat(c.old('ghost_added'), F.kh_file(F.gprefix(it, i), X509)),
+    return z3.And(it == F.nl_lines(c.arg('known_hosts')),          # the entries are the newline-separated lines
+                  c.new('ghost_added') == z3.Concat(c.old('ghost_added'), F.kh_file(F.gprefix(it, i), X509)),
                   kh_lines_wellformed(it, i), F.log_wf(F.kh_file(F.gprefix(it, i), X509)))
 
 
@@ -1107,7 +1108,8 @@ def ak_load_raises(c):
 ak_load = Spec(
     PROP, 'auth_keys', 'SSHAuthorizedKeys.load', self_class='SSHAuthorizedKeys', params=dict(authorized_keys='str'),
     classes={'SSHAuthorizedKeys': AK_FIELDS}, stubs={'_SSHAuthorizedKeyEntry': ak_entry_ctor_stub},
-    loops={1: LoopSpec(invariant=lambda c: ak_load_state(c, c.extra['iter'].z, c.extra['i']),
+    loops={1: LoopSpec(invariant=lambda c: z3.And(c.extra['iter'].z == _ak_lines(c),    # newline-separated lines
+                                                  ak_load_state(c, c.extra['iter'].z, c.extra['i'])),
                        lemmas=ak_load_lemmas, modifies=AK_LISTS)},
     ensures=[('entries-by-class-in-file-order(bad-keys-skipped)',
               lambda c: ak_load_state(c, _ak_lines(c), z3.Length(_ak_lines(c)))),
